@@ -370,7 +370,7 @@ def run_job(job):
                 else:
                     the_runner(ScenarioRunnerNoTrade).run_model_no_trade(
                         title="v%d_%s_%s" % (os.getpid(), job["cc"], job["preset"]), create_pptx_with_all_countries=False, scenario_option=pre,
-                        countries_list=[job["cc"]], return_results=True)
+                        countries_list=[job["cc"]], return_results=True, save_all_results=True)
         except BaseException:
             pass
         CAP = dict(herds=[], solves=[], lps=[], interp=[], validators=[])
@@ -400,14 +400,28 @@ def run_job(job):
                     try:
                         out = the_runner(ScenarioRunnerNoTrade).run_model_no_trade(
                             title="v%d_%s_%s" % (os.getpid(), job["cc"], job["preset"]), create_pptx_with_all_countries=False,
-                            scenario_option=opts, countries_list=list(job["with"]) + [job["cc"]], return_results=True)
+                            scenario_option=opts, countries_list=list(job["with"]) + [job["cc"]], return_results=True, save_all_results=True)
                     finally:
                         ScenarioRunnerNoTrade.run_optimizer_for_country = orig_rofc
                 else:
                     out = the_runner(ScenarioRunnerNoTrade).run_model_no_trade(
                         title="v%d_%s_%s" % (os.getpid(), job["cc"], job["preset"]), create_pptx_with_all_countries=False, scenario_option=opts,
-                        countries_list=[job["cc"]], return_results=True, show_country_figures=bool(job.get("figures")))
+                        countries_list=[job["cc"]], return_results=True, save_all_results=True, show_country_figures=bool(job.get("figures")))
         rec["ok"] = True
+        # every table the run saved for the job's own country (asked for the way the web interface does), by content
+        try:
+            import glob as _glob
+            import hashlib as _hl
+            if job["cc"] != "WOR" and isinstance(out[3], dict):
+                ttl = "v%d_%s_%s" % (os.getpid(), job["cc"], job["preset"])
+                names = [k for k, v_ in out[3].items() if getattr(v_, "constants", {}).get("inputs", {}).get("COUNTRY_CODE") == job["cc"]] or list(out[3].keys())[-1:]
+                saved = {}
+                for nm_ in names:
+                    for f_ in sorted(_glob.glob(os.path.join("results", "%s_%s_*.csv" % (ttl, nm_)))):
+                        saved[os.path.basename(f_)[len(ttl) + 1:]] = _hl.sha256(open(f_, "rb").read()).hexdigest()[:16]
+                rec["saved_tables"] = saved
+        except BaseException as _ex:  # noqa
+            rec["saved_tables"] = "unreadable: " + repr(_ex)[:80]
         world_map = None
         try:
             if out[0] is not None and hasattr(out[0], "columns") and "needs_ratio" in out[0].columns:
